@@ -156,6 +156,18 @@ func (p *Prog) CalleesAt(c ssa.CallInstruction) []*ssa.Function {
 // callees in the repo, plus (callback approximation) closures, bound methods
 // and methods of repo values handed to non-repo callees.
 func (p *Prog) Edges(fn *ssa.Function) []*ssa.Function {
+	if p.edgeCache == nil {
+		p.edgeCache = map[*ssa.Function][]*ssa.Function{}
+	}
+	if e, ok := p.edgeCache[fn]; ok {
+		return e
+	}
+	e := p.edges(fn)
+	p.edgeCache[fn] = e
+	return e
+}
+
+func (p *Prog) edges(fn *ssa.Function) []*ssa.Function {
 	seen := map[*ssa.Function]bool{}
 	var out []*ssa.Function
 	add := func(f *ssa.Function) {
